@@ -9,6 +9,7 @@ import (
 
 	"deps.dev/util/resolve"
 	"deps.dev/util/resolve/schema"
+	"verif/harness/mon/c19/vt"
 )
 
 // Text forms of the test schema syntax, reached through the public schema
@@ -32,10 +33,14 @@ const (
 	formInline      = "ver:inline"
 	formAttr        = "ver:attr"
 	formMixed       = "ver:mixed"
+	// The repository's own writer (versiontest.String, copied verbatim into
+	// package vt at build time) -> schema.New("p\n\t<attrs>|1"), and its own
+	// parser (versiontest.ParseString) on the same text.
+	formVersiontest = "ver:versiontest"
 )
 
 var depForms = []string{formEdge, formGraphString, formSchemaNew}
-var verForms = []string{formInline, formAttr, formMixed}
+var verForms = []string{formInline, formAttr, formMixed, formVersiontest}
 
 func quote(s string) string { return strconv.Quote(s) }
 
@@ -271,6 +276,12 @@ func writeText(kd *kind, form string, real value, m *model, choice int) string {
 		return "p\n\t1\n\t\t" + t + "|q@1\n"
 	}
 	// version forms
+	if form == formVersiontest {
+		if t := vt.String(real.(*verVal).s); t != "" {
+			return "p\n\t" + t + "|1.0.0\n"
+		}
+		return "p\n\t1.0.0\n"
+	}
 	var inline, lines []string
 	for i, k := range kd.keys {
 		if !m.has[i] {
@@ -344,7 +355,7 @@ func carry(kd *kind, form string, m *model) (int, string) {
 		switch form {
 		case formEdge, formGraphString, formSchemaNew:
 			why = depCarry(form, k, m.val[i])
-		case formInline:
+		case formInline, formVersiontest:
 			why = verInlineCarry(k, m.val[i])
 		}
 		if why != "" {
